@@ -6,9 +6,76 @@
   invariant holds again, the outputs hold the specified values of the values before the call, every other variable keeps
   its value.
 -/
-import Mpir.Model.AliasMul
-import MpirProofs.Lemmas.AliasRoot
+import MpirProofs.Lemmas.AliasRootrem
 namespace Mpir.AliasMem
 open Mpir
+
+def look3 (r : R St) (k : Nat) : Except String (List (Int × Nat × Nat)) := r.map (·.view k)
+def errOf3 (r : R St) : String := match r with | .error e => e | .ok _ => "ok"
+
+/-! ## mpz_rootrem -/
+
+/-- mpz_rootrem (mpz/rootrem.c), every choice of root, rem, u with root ≠ rem (root = u: the root is built in TMP space
+    because mpn_rootrem's operands may not overlap, and copied back over the operand, :59-62, :84-85; rem = u likewise,
+    :64-67, :86-87; `up = PTR (u)` is fetched after the two reallocations, :69), nth ≥ 1, u ≥ 0 or nth odd:
+    root = sgn (u) ⌊|u|^(1/nth)⌋ (`Root.iroot`: the t with t^nth ≤ |u| < (t+1)^nth, `Root.iroot_spec`), rem = u - root^nth,
+    both computed from the value of u before the call; SIZ (root) = ±((un-1)/nth + 1) is stored without a normalisation
+    (:83) and is right (`iroot_size`). -/
+theorem rootrem_ptr_spec {s : St} (h : Inv s) {root rem u : Nat} (hr : root < s.nv) (hm : rem < s.nv) (hu : u < s.nv)
+    (hrm : root ≠ rem) (nth : Nat) (hn : 1 ≤ nth) (hsgn : 0 ≤ s.value u ∨ nth % 2 = 1) :
+    ∃ s', rootrem root rem u nth s = .ok s' ∧ Inv s' ∧ s'.nv = s.nv ∧
+      s'.value root = (if s.value u < 0 then -(Root.iroot nth (s.value u).natAbs : Int) else (Root.iroot nth (s.value u).natAbs : Int)) ∧
+      s'.value rem = s.value u - s'.value root ^ nth ∧
+      ∀ i, i < s.nv → i ≠ root → i ≠ rem → s'.value i = s.value i := by
+  obtain ⟨s', hs', i', n', vr, vm, vo⟩ := rootrem_ok h hr hm hu hrm nth hn hsgn
+  have hsz := h.size_neg_iff hu
+  have hle := (Root.iroot_spec nth (s.mag u) hn).1
+  have hvr : s'.value root = (if s.value u < 0 then -(Root.iroot nth (s.value u).natAbs : Int) else (Root.iroot nth (s.value u).natAbs : Int)) := by
+    rw [vr, value_natAbs]; unfold sgnv
+    by_cases h0 : s.value u < 0
+    · rw [if_pos (hsz.mpr h0), if_pos h0]
+    · rw [if_neg (fun x => h0 (hsz.mp x)), if_neg h0]
+  refine ⟨s', hs', i', n', hvr, ?_, vo⟩
+  rw [vm, hvr, value_natAbs]; unfold sgnv
+  have hv := value_eq_sgnv s u
+  unfold sgnv at hv
+  by_cases h0 : s.value u < 0
+  · have hodd : Odd nth := by
+      rcases hsgn with x | x
+      · omega
+      · exact Nat.odd_iff.mpr x
+    rw [if_pos (hsz.mpr h0), if_pos h0, hodd.neg_pow]
+    rw [if_pos (hsz.mpr h0)] at hv
+    rw [hv]; push_cast [hle]; ring
+  · rw [if_neg (fun x => h0 (hsz.mp x)), if_neg h0]
+    rw [if_neg (fun x => h0 (hsz.mp x))] at hv
+    rw [hv]; push_cast [hle]; ring
+
+/-- the exceptions come first and leave every variable alone: even root of a negative number, zeroth root
+    (rootrem.c:36-43, in this order) -/
+theorem rootrem_exceptions (s : St) (root rem u nth : Nat) :
+    (s.size u < 0 ∧ nth % 2 = 0 → rootrem root rem u nth s = .error "sqrtneg") ∧
+    (¬ (s.size u < 0 ∧ nth % 2 = 0) → nth = 0 → rootrem root rem u nth s = .error "div0") := by
+  constructor
+  · intro hx; unfold rootrem; simp only [bind, Except.bind]; rw [if_pos hx]; rfl
+  · intro hx h0; unfold rootrem; simp only [bind, Except.bind]; rw [if_neg hx, if_pos h0]; rfl
+
+def exSt6 : St := ofInts [2 ^ 200 + 12345, -(2 ^ 70 + 3), 7, 0]
+-- root = u: cube root of 2^200 + 12345 in place (TMP root copied back: 2 limbs stay in the 4-limb block), rem grows to 4 limbs
+example : look3 (rootrem 0 3 0 3 exSt6) 4 =
+    .ok [(117129523791978766508, 4, 0), (-(2 ^ 70 + 3), 2, 1), (7, 1, 2), (2 ^ 200 + 12345 - 117129523791978766508 ^ 3, 4, 5)] := by
+  decide +kernel
+-- rem = u, negative operand, odd root: root = -⌊(2^70+3)^(1/3)⌋, rem = u - root^3 ≤ 0 over the operand, root grows
+example : look3 (rootrem 3 1 1 3 exSt6) 4 =
+    .ok [(2 ^ 200 + 12345, 4, 0), (-(2 ^ 70 + 3) + 10568983 ^ 3, 2, 1), (7, 1, 2), (-10568983, 1, 3)] := by decide +kernel
+-- nth = 1: root := u (copied through TMP space when root = u), rem := 0
+example : look3 (rootrem 1 2 1 1 exSt6) 3 = .ok [(2 ^ 200 + 12345, 4, 0), (-(2 ^ 70 + 3), 2, 1), (0, 2, 5)] := by decide +kernel
+example : errOf3 (rootrem 0 3 1 2 exSt6) = "sqrtneg" := by decide
+example : errOf3 (rootrem 0 3 1 0 exSt6) = "sqrtneg" := by decide
+example : errOf3 (rootrem 0 3 0 0 exSt6) = "div0" := by decide
+-- negative example: what `rootp = PTR (root)` with root = u would be (rootrem.c:59-62 without the TMP block): mpn_rootrem
+-- refuses a root that overlaps the operand — and a remainder that does (:64-67)
+example : (match mpn_rootrem 0 3 0 4 3 exSt6 with | .error e => e | .ok _ => "ok") = "ub:mpn_rootrem operands overlap" := by decide
+example : (match mpn_rootrem 3 0 0 4 3 exSt6 with | .error e => e | .ok _ => "ok") = "ub:mpn_rootrem operands overlap" := by decide
 
 end Mpir.AliasMem
